@@ -24,9 +24,9 @@ var verifC04HashLow func(prefix uint32, key []byte) (uint64, bool)
 // of (prefix, key); its low 24 bits are restricted to [0, verifC04HashRange).
 func EntryHash64(prefix uint32, key []byte) uint64 {
 	id := verifC04KeyID(key)
-	// prefix (mining nonce, < 1000) goes to bits 54..63: no overlap with the 54-bit key id
-	verifAssert(prefix < 1<<10, "C04 model: hash prefix (nonce) >= 1024")
-	v := verifUF64("entryhash", uint64(prefix)<<54^id)
+	// prefix (mining nonce, < 512) goes to bits 55..63: no overlap with the 55-bit key id
+	verifAssert(prefix < 1<<9, "C04 model: hash prefix (nonce) >= 512")
+	v := verifUF64("entryhash", uint64(prefix)<<55^id)
 	if verifC04HashLow != nil {
 		if low, ok := verifC04HashLow(prefix, key); ok {
 			return v&^0xffffff | low&0xffffff
@@ -147,21 +147,35 @@ func verifC04Key(i int, long int) []byte {
 }
 
 
-// verifC04KeyID identifies a harness key in 54 bits: its length (bits 32..48), its first four
-// bytes (bits 0..31) and a 5-bit position-weighted checksum of all further bytes (bits 49..53),
+// verifC04KeyID identifies a harness key in 55 bits: its length (bits 32..49, keys up to 2^18-1
+// bytes), its first four bytes (bits 0..31) and a 5-bit position-weighted checksum of its
+// further marked regions (bits 50..54),
 // so that a key that reaches the hash function truncated, padded or with a corrupted tail gets
 // another id. Harness keys differ in length or in their first four bytes, so the id is
 // injective on them.
 func verifC04KeyID(key []byte) uint64 {
-	id := uint64(len(key)) << 32
-	for i := 0; i < 4 && i < len(key); i++ {
+	n := len(key)
+	id := uint64(n) << 32
+	for i := 0; i < 4 && i < n; i++ {
 		id |= uint64(key[i]) << (8 * i)
 	}
+	if n <= 4 {
+		return id
+	}
+	// checksum over bytes 4..67, the middle byte and the last 64 bytes (harness keys are zero elsewhere)
 	var sum uint64
-	for i := 4; i < len(key); i++ {
+	for i := 4; i < n && i < 68; i++ {
 		sum += uint64(i+1) * uint64(key[i])
 	}
-	return id | ((sum%31+1)<<49)*verifC04B2U(len(key) > 4)
+	if n/2 >= 68 {
+		sum += uint64(n/2+1) * uint64(key[n/2])
+	}
+	for i := n - 64; i < n; i++ {
+		if i >= 68 && i != n/2 {
+			sum += uint64(i+1) * uint64(key[i])
+		}
+	}
+	return id | (sum%31+1)<<50
 }
 
 func verifC04B2U(b bool) uint64 {
